@@ -39,7 +39,7 @@ from mc.refs import relmodel, schemas
 from mc.props import c02
 
 NEEDS_BRIDGEPOINT = True
-BUDGET_S = {'quick': 1800, 'thorough': 7200}
+BUDGET_S = {'quick': 3600, 'thorough': 14400}
 ASSUMPTIONS = [
     'identifying attributes never hold empty strings or numeric zeros (whether those are null is not stated); nulls are '
     'unset values and id 0',
